@@ -419,7 +419,15 @@ class SpendingPackageAdjustment(Adjustment):
         if self.get_total_spend(instructions) > 0:
             spend_factor = total_spend / self.get_total_spend(instructions)
         else:
-            spend_factor = 0.0  # if total spending is zero, spending on each program must be zero?
+            # Nothing is being spent on the package, so there are no proportions that could be scaled up. Spread the
+            # requested total using the initial proportions (which satisfy the proportion constraints by construction)
+            if self.initial_spends.sum() == 0:
+                fracs = np.array([1.0 / len(self.initial_spends) for _ in self.initial_spends])
+            else:
+                fracs = self.initial_spends / self.initial_spends.sum()
+            for prog, frac in zip(self.prog_name, fracs):
+                instructions.alloc[prog].insert(t=self.t, v=frac * total_spend)
+            return
         for prog in self.prog_name:
             ts = instructions.alloc[prog]
             ts.insert(t=self.t, v=ts.get(self.t) * spend_factor)
